@@ -2,7 +2,7 @@
    next to the ICC payload that tj3Transform() writes (one transform, n = 1), both built from
    the conditions translated from the source (gen/GenXformIcc.v).  No proofs here. *)
 From Coq Require Import ZArith Bool.
-From LJT Require Import gen.GenXformIcc.
+From LJT Require Import gen.GenXformIcc gen.GenDest.
 Local Open Scope Z_scope.
 Local Open Scope bool_scope.
 
@@ -38,3 +38,17 @@ Definition icc_written (x : xsetup) : Z := copied_bytes x + inst_bytes x.
 Definition valid_setup (x : xsetup) : Prop :=
   gen_savemarkers_min <= x_save x <= gen_savemarkers_max /\ 0 <= x_src x /\ 0 <= x_inst x.
 
+
+(* ---- bytes, not only payload: every APP2 chunk costs icc_chunk_overhead more bytes (marker, length,
+        "ICC_PROFILE\0", sequence number, count).  A copied source profile keeps the chunking of the source
+        (1..255 chunks, any sizes); jpeg_write_icc_profile cuts the instance profile into 65519-byte chunks. *)
+Definition icc_chunk_overhead : Z := 2 + 2 + GenDest.icc_overhead_len.
+Definition inst_chunks (inst : Z) : Z := (inst + (GenDest.icc_max_bytes_in_marker - GenDest.icc_overhead_len) - 1)
+                                         / (GenDest.icc_max_bytes_in_marker - GenDest.icc_overhead_len).
+Definition chunks_written (x : xsetup) (src_chunks : Z) : Z :=
+  (if saved_icc x && gen_copies_app2 (copy_opt x) then src_chunks else 0) +
+  (if gen_writes_inst (x_inst x) (icc_copied x) then inst_chunks (x_inst x) else 0).
+Definition icc_bytes_written (x : xsetup) (src_chunks : Z) : Z :=
+  icc_written x + icc_chunk_overhead * chunks_written x src_chunks.
+(* the part of tj3TransformBufSize() that is not the per-sample budget of the image *)
+Definition marker_budget (x : xsetup) : Z := size_term x + GenDest.bufsize_slack.
